@@ -142,6 +142,11 @@ def m_x_Name(self, st, n, k):
         return k(st, VFunc('contract', self.module_funcs[n.id], None))
     if n.id in self.globals:
         return k(st, self.globals[n.id])
+    if n.id in getattr(self, 'prefix_locals', ()):
+        # a local computed by the dropped prefix of a partially verified function that the contract does not list as
+        # an input: nothing is known about it
+        st.loc[n.id] = VDyn(fresh('prefix_local_' + n.id, T.Val))
+        return k(st, st.loc[n.id])
     if self.cur is not None and ':' in self.cur.target:
         # a module-level helper function of the same module that has no contract of its own: its real body is
         # executed in place (it is part of the code of the function under verification)
@@ -155,12 +160,12 @@ def m_x_Name(self, st, n, k):
     raise Untranslated('name %s' % n.id)
 
 
-DYN_METHODS = {'to_bytes', 'search', 'encode', 'decode', 'items', 'get', 'append', 'pack_impl', 'unpack_impl', 'clone', 'as_prototype', 'find', 'ljust', 'rjust'}
+DYN_METHODS = {'to_bytes', 'search', 'encode', 'decode', 'items', 'get', 'append', 'pack_impl', 'unpack_impl', 'clone', 'as_prototype', 'find', 'ljust', 'rjust', 'splitlines'}
 
 EXC_NAMES = {'Exception', 'ValueError', 'TypeError', 'KeyError', 'IndexError', 'AttributeError',
              'NotImplementedError', 'AssertionError', 'SyntaxError', 'ImportError', 'OverflowError',
              'ZeroDivisionError', 'RuntimeError', 'StopIteration', 'LookupError', 'ArithmeticError',
-             'BaseException', 'OSError', 'FileNotFoundError'}
+             'BaseException', 'OSError', 'FileNotFoundError', 'FileExistsError', 'UnicodeDecodeError'}
 
 
 def m_x_Attribute(self, st, n, k):
@@ -1840,6 +1845,19 @@ def m_bi_all(self, st, pos, kws, k):
     return _any_all(self, st, pos, k, 'all')
 
 
+def m_bm_str_splitlines(self, st, v, pos, kws, k):
+    """s.splitlines(): an opaque list of lines; empty exactly for the empty string"""
+    n = z3.Function('str_line_count', T.S, T.I)(v.z)
+    st.assume(z3.And(n >= 0, (n == 0) == (z3.Length(v.z) == 0)))
+    line = z3.Function('str_line', T.S, T.I, T.S)
+    return k(st, VSeqAbs(n, lambda i: VStr(line(v.z, i)), 'lines'))
+
+
+def m_bm_dyn_splitlines(self, st, v, pos, kws, k):
+    return self.with_raises(st, [(z3.Not(T.Val.is_VS(v.z)), 'AttributeError')],
+                            lambda st: self.bm_str_splitlines(st, VStr(T.Val.sval(v.z)), pos, kws, k))
+
+
 def m_bm_bytes_ljust(self, st, v, pos, kws, k):
     """b.ljust(width, fill): b itself when it is long enough, else b followed by padding (uninterpreted beyond that)"""
     w, bad = self.as_int(pos[0])
@@ -2532,6 +2550,10 @@ def m_s_Raise(self, st, s, k):
             raise Untranslated('bare raise outside handler')
         return self.do_raise(st, st.cur_exc)
 
+    if isinstance(s.exc, ast.Call):
+        # a NEW exception object raised by this body itself (not one propagated from a callee or re-raised)
+        st.ghost['g_own_raise'] = VBool(True)
+
     def got(st, v):
         if isinstance(v, VFunc) and v.tag == 'class':
             return self.call_class(st, v.payload[0], [], {}, None, lambda st, e: self.do_raise(st, e))
@@ -3010,6 +3032,7 @@ def m_verify_function(self, c):
     self.source_sha = sha
     body = strip_docstring(node.body) if not isinstance(node, ast.Lambda) else [ast.Return(value=node.body)]
     self.dropped_prefix = None
+    self.prefix_locals = set()
     if getattr(c, 'body_after_assign', None):
         cut = None
         for i, stmt in enumerate(body):
@@ -3027,6 +3050,12 @@ def m_verify_function(self, c):
                                   'the tail is verified for arbitrary values of those locals subject to the stated preconditions'
                                   % (cut + 1, c.target, body[0].lineno, body[cut].end_lineno, ', '.join(sorted(c.locals_in))))
         self.prefix_problems = check_prefix(body[:cut + 1], getattr(c, 'prefix_checks', []))
+        self.prefix_locals = set()
+        for stmt in body[:cut + 1]:
+            for sub in ast.walk(stmt):
+                if isinstance(sub, ast.Name) and isinstance(sub.ctx, ast.Store):
+                    self.prefix_locals.add(sub.id)
+        self.prefix_locals -= set(c.locals_in)
         body = body[cut + 1:]
     # number loops in source order, relative line numbers for stable path ids
     self.loop_ordinals = {}
@@ -3121,6 +3150,7 @@ def m_verify_function(self, c):
         return self.obligations
     for g, expr in getattr(c, 'ghost_init', {}).items():
         st.ghost[g] = self.spec(st, expr, env)
+    st.ghost['g_own_raise'] = VBool(False)
 
     def on_return(st2, v):
         self.end_normal(st2, c, env, pre, v)
@@ -3156,6 +3186,13 @@ def check_prefix(stmts, checks):
         if chk[0] == 'guard':
             ok = any(ast.unparse(s) == chk[1] for s in stmts)
             out.append(('prefix contains `%s`' % chk[1].replace('\n', ' '), ok))
+        elif chk[0] == 'const-string':
+            # every top-level statement of the prefix that assigns `var` assigns a plain string literal
+            # (the same text for every declaration: no formatting, no concatenation)
+            var = chk[1]
+            asg = [a for s in stmts for a in assigns(s, var)]
+            ok = bool(asg) and all(isinstance(a.value, ast.Constant) and isinstance(a.value.value, str) for a in asg)
+            out.append(('prefix: %s is a string constant (the same for every declaration)' % var, ok))
         elif chk[0] == 'flag-string':
             _, flag, var, head = chk
             owners = [s for s in stmts if assigns(s, var)]
